@@ -34,5 +34,5 @@ def p_thrift(ctx):
 def run(ctx):
     from ._callsites import p_callsites
     from ._generic import optional_parts
-    extra = optional_parts(("_hybrid", "p_hybrid"), ("_encoders", "p_encoders"), ("_speedups", "p_speedups"), ("_assembly", "p_assembly"), ("_options", "p_options"), ("_readoptions", "p_readoptions"), ("_thriftvals", "p_thriftvals"), ("_many", "p_many_fetch"))
+    extra = optional_parts(("_hybrid", "p_hybrid"), ("_encoders", "p_encoders"), ("_speedups", "p_speedups"), ("_assembly", "p_assembly"), ("_options", "p_options"), ("_readoptions", "p_readoptions"), ("_thriftvals", "p_thriftvals"), ("_many", "p_many_fetch"), ("_pages", "p_pages_native_preconditions"))
     return run_property(ctx, "proof", EXPLANATION, p_parts=[p_kernels, p_callsites, p_thrift, p_merge_bytes, p_deflevels] + extra, b_modules=[])
